@@ -12,7 +12,7 @@ use crate::rng::{Digest, Prng};
 use num_bigint::BigUint;
 use num_traits::{One, Zero};
 use serde::{Deserialize, Serialize};
-use sm9_core::{Fq, Fq2, Fr, Group, G1, G2};
+use sm9_core::{AffineG1, AffineG2, Fq, Fq2, Fr, Group, G1, G2};
 use std::str::FromStr;
 
 #[derive(Clone, Copy, Debug, PartialEq, Eq, Serialize, Deserialize)]
@@ -160,6 +160,9 @@ pub enum FOp {
     G2Coord { dst: usize, s: usize, which: u8, norm: bool },
 }
 
+/// suffix of the operation name per coordinate route (see `FOp::G1Coord` in `exec`)
+const COORD_ROUTE: [&str; 4] = ["", ".affine", ".via_compressed", ".via_uncompressed"];
+
 impl FOp {
     /// steps that turn outside data (bytes, strings, hashes, RNG output, a bit index) or a
     /// group value into a field element
@@ -204,8 +207,8 @@ impl FOp {
             FOp::Q2Sqrt { .. } => "Fq2.sqrt".into(),
             FOp::Q2Real { .. } => "Fq2.real".into(),
             FOp::Q2Imag { .. } => "Fq2.imaginary".into(),
-            FOp::G1Coord { .. } => "G1.coord".into(),
-            FOp::G2Coord { .. } => "G2.coord".into(),
+            FOp::G1Coord { which, .. } => format!("G1.coord{}", COORD_ROUTE[(*which as usize / 3) % 4]),
+            FOp::G2Coord { which, .. } => format!("G2.coord{}", COORD_ROUTE[(*which as usize / 3) % 4]),
         }
     }
 }
@@ -776,6 +779,10 @@ fn record_reach(st: &St, op: &FOp, n: usize, opname: &str, res: &mut RunResult) 
         FOp::FromHash { bytes, .. } => {
             res.reach(format!("{}|len={}", opname, bytes.len() / 2));
         }
+        FOp::G1Coord { .. } | FOp::G2Coord { .. } => {
+            res.reach(opname.to_string());
+            res.count(&format!("coord_route:{}", opname));
+        }
         _ => {
             res.reach(opname.to_string());
         }
@@ -1039,10 +1046,37 @@ fn step_fld(st: &mut St, op: &FOp, n: usize) -> StepOut {
             if *norm {
                 p.normalize();
             }
-            st.fq.regs[d].0 = match which % 3 {
-                0 => p.x(),
-                1 => p.y(),
-                _ => p.z(),
+            // which / 3 selects the route by which the coordinate leaves the library: Jacobian
+            // accessor, affine accessor (slot 2: the curve constant b), or the accessor of a point
+            // that went through the compressed / uncompressed byte formats and back
+            let route = if p.is_zero() { 0 } else { (which / 3) % 4 };
+            st.fq.regs[d].0 = match route {
+                1 => {
+                    let a = AffineG1::from_jacobian(p).expect("non-identity has an affine form");
+                    match which % 3 {
+                        0 => a.x(),
+                        1 => a.y(),
+                        _ => G1::b(),
+                    }
+                }
+                2 | 3 => {
+                    let back = if route == 2 {
+                        G1::from_compressed(&p.to_compressed())
+                    } else {
+                        G1::from_uncompressed(&p.to_uncompressed())
+                    }
+                    .expect("own encoding decodes");
+                    match which % 3 {
+                        0 => back.x(),
+                        1 => back.y(),
+                        _ => back.z(),
+                    }
+                }
+                _ => match which % 3 {
+                    0 => p.x(),
+                    1 => p.y(),
+                    _ => p.z(),
+                },
             };
             producer(Wrote::Fq(d), Tag::Coord)
         }
@@ -1053,10 +1087,34 @@ fn step_fld(st: &mut St, op: &FOp, n: usize) -> StepOut {
             if *norm {
                 p.normalize();
             }
-            st.q2.regs[d].0 = match which % 3 {
-                0 => p.x(),
-                1 => p.y(),
-                _ => p.z(),
+            let route = if p.is_zero() { 0 } else { (which / 3) % 4 };
+            st.q2.regs[d].0 = match route {
+                1 => {
+                    let a = AffineG2::from_jacobian(p).expect("non-identity has an affine form");
+                    match which % 3 {
+                        0 => a.x(),
+                        1 => a.y(),
+                        _ => G2::b(),
+                    }
+                }
+                2 | 3 => {
+                    let back = if route == 2 {
+                        G2::from_compressed(&p.to_compressed())
+                    } else {
+                        G2::from_uncompressed(&p.to_uncompressed())
+                    }
+                    .expect("own encoding decodes");
+                    match which % 3 {
+                        0 => back.x(),
+                        1 => back.y(),
+                        _ => back.z(),
+                    }
+                }
+                _ => match which % 3 {
+                    0 => p.x(),
+                    1 => p.y(),
+                    _ => p.z(),
+                },
             };
             producer(Wrote::Q2(d), Tag::Coord)
         }
@@ -1827,7 +1885,7 @@ pub fn generate(seed: u64) -> FldSpec {
                 }
             },
             _ => {
-                let which = pr.below(3) as u8;
+                let which = pr.below(3) as u8 + 3 * pr.below(4) as u8;
                 let norm = pr.chance(1, 2);
                 if pr.chance(1, 2) {
                     ops.push(FOp::G1Coord { dst, s: a, which, norm });
